@@ -47,6 +47,8 @@ def run(rep, prog, tier):
     C12.check_derive_key(rep, prog, 'C06.8', 'C06.8b')
     # the octet count a protected key is stretched with is stored coded: another implementation decodes it by the RFC formula
     s2kshape.check_count(rep, prog, 'C06.9')
+    s2kshape.check_digest_sizes(rep, prog, 'C06.8b')
+    check_protection_state(rep, prog)
 
 
 # ------------------------------------------------------------------------------------------------ C06.1
@@ -281,6 +283,58 @@ def check_unlock(rep, prog):
                            for s in ups if s.raised is None)
     rep.check(ok, 'C06.1', 'PrivKeyV4.unprotect', 'delegates to decrypt_keyblob',
               'unprotect decrypts the key material with the passphrase', where=up.where)
+
+
+# ------------------------------------------------------------------------------------------------ C06.3b / C06.6b
+def check_protection_state(rep, prog):
+    """(a) no exception path of protect / encrypt_keyblob lowers the protection state: a handler that replaces or rewrites the S2K
+    specifier turns a protected key whose re-protection failed into one that serialises its secret integers in the clear;
+    (b) PrivKeyV4.unlocked is a function of the key material's current state: a flag kept beside it survives the scope-exit wipe
+    (keymaterial.clear()), so the key would claim to be unlocked with zeroed secrets."""
+    sites = [(prog.method('pgpy.packet.fields', 'PrivKey', 'encrypt_keyblob'), ''),
+             (prog.method('pgpy.packet.packets', 'PrivKeyV4', 'protect'), '.keymaterial'),
+             (prog.method('pgpy.pgp', 'PGPKey', 'protect'), None)]
+    for f, tail in sites:
+        rep.saw(fn=f)
+        me = f.params[0]
+        hits = []
+        for h in [n for n in ast.walk(f.node) if isinstance(n, ast.ExceptHandler)]:
+            for n in ast.walk(h):
+                tg = []
+                if isinstance(n, ast.Assign):
+                    tg = n.targets
+                elif isinstance(n, (ast.AugAssign, ast.AnnAssign)):
+                    tg = [n.target]
+                elif isinstance(n, ast.Delete):
+                    tg = n.targets
+                elif isinstance(n, ast.Call) and (dotted(n.func) or '').split('.')[-1] in ('setattr', 'delattr', '__init__', 'parse') and \
+                        's2k' in ast.unparse(n):
+                    hits.append(ast.unparse(n))
+                for t in tg:
+                    for x in (t.elts if isinstance(t, (ast.Tuple, ast.List)) else [t]):
+                        d = dotted(x) or ''
+                        if re.search(r'(?:^|\.)s2k(?:\.|$)', d) or re.search(r'(?:^|\.)encbytes$', d):
+                            hits.append(ast.unparse(n))
+        rep.check(not hits, 'C06.3', f.qualname, 'exception path rewrites the protection state: %s' % hits if hits else 'exception paths leave the S2K specifier alone',
+                  'when protecting fails the key must stay as protected as it was: an exception handler that replaces / rewrites the S2K '
+                  'specifier (or the ciphertext) makes a protected key serialise its secret integers in the clear', where=f.where, found=hits)
+    un = (prog.cls('pgpy.packet.packets', 'PrivKeyV4').find_plain_prop('unlocked') or {}).get('get')
+    if un is None:
+        raise AnalysisError('PrivKeyV4.unlocked vanished')
+    rep.saw(fn=un)
+    me = un.params[0]
+    outs = Interp(prog, Scenario(inline=noinline, axioms={'%s.protected' % me: True, 'bool(%s.protected)' % me: True})).run(un)
+    rets = [s for s in outs if s.raised is None]
+    if not rets:
+        raise AnalysisError('PrivKeyV4.unlocked never returns for a protected key')
+    for s in rets:
+        r = render(s.ret)
+        attrs = set(re.findall(r'(?<![\w.])%s\.(\w+)' % re.escape(me), r))
+        ok = 'keymaterial' in attrs and attrs <= {'keymaterial', 'protected'}
+        rep.check(ok, 'C06.6', 'PrivKeyV4.unlocked', 'protected key: unlocked = %s' % r[:120],
+                  'whether a protected key is unlocked must be read from the key material itself (the scope-exit wipe zeroes it): a '
+                  'flag kept beside it is not reset by keymaterial.clear() and the key would claim to be unlocked with zeroed secrets',
+                  where=un.where, expected='a function of self.keymaterial', found=r)
 
 
 # ------------------------------------------------------------------------------------------------ C06.2
